@@ -201,7 +201,7 @@ def fc_nontrivial(case, res):
 
 
 def gen_fc_exhaustive(maxreads, npos):
-    positions = [10 * (i + 1) for i in range(npos)]
+    positions = [10 * i for i in range(npos)]      # starts at position 0 (POS 1 of a contig): a falsy position value
     subsets = [list(c) for m in range(1, npos + 1) for c in itertools.combinations(positions, m)]
     for m in range(0, maxreads + 1):
         for combo in itertools.combinations_with_replacement(range(len(subsets)), m):
@@ -242,6 +242,8 @@ def gen_fc_random(rng, count):
         r0 = rng.random()
         nv = rng.randint(2, 14) if r0 < 0.88 else rng.randint(15, 40) if r0 < 0.97 else rng.choice([70, 140, 330])
         U = sorted(rng.sample(range(0, rng.choice([3000, 3000, 250000000])), nv))
+        if rng.random() < 0.3:
+            U[0] = 0                                    # a variant on the first base of the contig (0-based position 0)
         r = rng.random()
         P = [] if r < 0.03 else [rng.choice(U)] if r < 0.08 else (sorted(p for p in U if rng.random() < 0.8) or [U[0]])
         reads = gen_reads(rng, U, rng.choice([0, 1, 2, 3, 5, 8, 14]))
@@ -306,6 +308,8 @@ def check_fc(ctx, cases, label):
         for thr in (64, 128, 256):
             if len(case["P"]) > thr:
                 ctx.tally(f"fc.positions>{thr}")
+        if case["P"] and case["P"][0] == 0 and any(ps and ps[0] == 0 and len(ps) > 1 for _, ps in case["reads"]):
+            ctx.tally("fc.read_starting_at_position_0")
         ctx.tally("fc.reads=" + ("0" if not case["reads"] else "1" if len(case["reads"]) == 1 else "many"))
         if case.get("repeat"):
             ctx.tally("fc.second_call_on_same_readset")
